@@ -97,8 +97,25 @@ class Program:
         c = [f for f in self.fns if f.crate == crate and f.name.startswith('static:') and (f.name[7:] == name or f.name.endswith('::' + name))]
         return c[0] if len(c) == 1 else None
 
-    def closure_fn(self, key, parent=None, nargs=None, names=None):
+    def closure_fn(self, key, parent=None, nargs=None, names=None, args=None, st=None, hint=None):
         c = self.closures.get(key, [])
+        if len(c) > 1 and args is not None and st is not None:
+            def compatible(f):
+                ps = f.params[1:]
+                if len(ps) != len(args): return False
+                for p_, a in zip(ps, args):
+                    pty = p_.split(':', 1)[1].strip()
+                    if pty.startswith('&') != isinstance(a, Ref) and not GENERIC_NAME.match(type_head(pty)):
+                        return False
+                    want = type_head(pty)
+                    v = st.deref_all(a) if isinstance(a, Ref) else a
+                    have = v.ty if isinstance(v, (Adt, Int, StrV)) else ('f64' if isinstance(v, Float) else 'bool' if isinstance(v, Bool) else None)
+                    if have is not None and want != have and not GENERIC_NAME.match(want) and not want.startswith('dyn '):
+                        if isinstance(v, StrV) and want in ('str', 'String', 'KString', 'KStringCow', 'KStringRef', 'KStringBase', 'KStringCowBase'): continue
+                        return False
+                return True
+            c2 = [f for f in c if compatible(f)]
+            if c2: c = c2
         if len(c) > 1 and parent:
             c2 = [f for f in c if f.name.startswith(parent + '::{closure#') and '::{closure#' not in f.name[len(parent) + 2 + len('{closure#'):]]
             if c2: c = c2
@@ -111,6 +128,12 @@ class Program:
                 return set(re.findall(r'debug (\w+) => \(?\(?\*?_1', '\n'.join(f.text)))
             c2 = [f for f in c if caps(f) == set(names)]
             if c2: c = c2
+        if len(c) > 1 and hint:
+            # the call site spells the closure's return type in its generic arguments (e.g. Option::map::<Result<i64, E>, {closure}>)
+            norm = lambda t: re.sub(r"\s+", '', re.sub(r"(?:\w+::)+", '', t))
+            h = norm(hint)
+            c2 = [f for f in c if norm(f.ret) and ('<' + norm(f.ret) + ',') in h]
+            if len(c2) >= 1 and len(c2) < len(c): c = c2
         if len(c) == 1: return c[0]
         if not c: return None
         raise Unsupported(f'ambiguous closure {key} (parent {parent}): {[f.name for f in c]}')
